@@ -605,8 +605,32 @@ CORPUS = [
 ]
 
 
+class _Quota:
+    """The runner keeps at most 200 mismatching cases per run; cases that can only hit the recorded findings D17
+    (ignore_diags = 0 with diagonal data) and D18 (trans-only) are therefore rationed, so that they can never crowd
+    a new violation out of that list.  Beyond the quota the option is replaced by its neighbour."""
+
+    def __init__(self, d17=110, d18=70):
+        self.left = {"d17": d17, "d18": d18}
+
+    def __call__(self, c):
+        o = c["opts"]
+        if o["mode"] == "trans":
+            if self.left["d18"] <= 0:
+                o["mode"] = "genome"
+            else:
+                self.left["d18"] -= 1
+        if o["ignore_diags"] == 0 and _has_diag(c):
+            if self.left["d17"] <= 0:
+                o["ignore_diags"] = 1
+            else:
+                self.left["d17"] -= 1
+        return c
+
+
 def cases(tier, rng):
     thorough = tier == "thorough"
+    ration = _Quota()
     for c in CORPUS:
         for nm in ("model", "masks", "flat"):
             yield nm, c
@@ -623,7 +647,7 @@ def cases(tier, rng):
         yield "marginalize", {"n": n, "offsets": offs, "pixels": px, "filters": fs, "ignore_diags": rng.randint(0, 3)}
     # small cases: the same case is run through the unit comparison and the two top-level checks
     for k in range(5000 if thorough else 600):
-        c = _small_case(rng)
+        c = ration(_small_case(rng))
         yield "model", c
         yield "masks", c
         yield "flat", c
@@ -631,7 +655,7 @@ def cases(tier, rng):
             yield "stored", c
     # float-only runs
     for k in range(4000 if thorough else 400):
-        c = _float_case(rng, 40 if thorough else 28)
+        c = ration(_float_case(rng, 40 if thorough else 28))
         yield "run", c
         if k % (50 if thorough else 120) == 0:
             yield "stored", c
